@@ -26,7 +26,7 @@ def keys {κ α} (m : Assoc κ α) : List κ := m.map (·.1)
 
 /-! ## the scenario AST -/
 
-inductive Kind | computer | server | switch | router | firewall
+inductive Kind | computer | server | printer | switch | router | firewall
 deriving DecidableEq, Repr
 
 /-- `NodeOperatingState` (the four values docs/source/configuration/simulation/nodes/common/common_node_attributes.rst lists). -/
@@ -262,7 +262,7 @@ def routerSystem : List (String × Bool) :=
   [("user-session-manager", false), ("user-manager", false), ("terminal", false), ("icmp", false), ("arp", false), ("nmap", true)]
 
 def systemSoftware : Kind → List (String × Bool)
-  | .server => hostSystem
+  | .server | .printer => hostSystem                          -- Printer(HostNode) adds nothing to HostNode.SYSTEM_SOFTWARE
   | .computer => hostSystem ++ [("ftp-client", false)]     -- Computer.SYSTEM_SOFTWARE = {**HostNode.SYSTEM_SOFTWARE, "ftp-client": …}
   | .router | .firewall => routerSystem
   | .switch => []
@@ -479,7 +479,7 @@ def buildNode (n : NodeCfg) : Except Err NodeInv :=
       users := if n.kind = .switch then [] else buildUsers n,
       folders := if net then [] else buildFolders n }
   match n.kind with
-  | .computer | .server =>
+  | .computer | .server | .printer =>
     match n.ip with
     | none => .error .hostNoAddress
     | some ip =>
@@ -619,7 +619,7 @@ def declaredNode (n : NodeCfg) : NodeInv :=
     startUp := n.startUp.getD defaultDuration, shutDown := n.shutDown.getD defaultDuration,
     dns := n.dns, gateway := n.gateway,
     nics := match n.kind with
-      | .computer | .server =>
+      | .computer | .server | .printer =>
         { name := none, ip := n.ip, mask := some (n.mask.getD defaultMask) } :: declaredNics n.nics
       | .switch => List.replicate (n.numPorts.getD defaultSwitchPorts) { name := none, ip := none, mask := none }
       | .router => declaredPorts (n.numPorts.getD defaultRouterPorts) n.ports
